@@ -25,8 +25,9 @@ def samVarCommand (c : Case) (blocksFn : List SamRec → List (List SamRec))
     else variantsOutput vi.append vi.start vi.stop refID lists
 
 def runSamVar (c : Case) : Verdict :=
-  functional (c.get "go")
-    (samVarCommand c samBlocks (fun b r => blockToSeqPair b r) modelPair)
-    (samVarCommand c specBlocks specPair specVariants)
+  let f := focusOutput (c.get "focus") (c.bool "agg")
+  functional (f (c.get "go"))
+    (f (samVarCommand c samBlocks (fun b r => blockToSeqPair b r) modelPair))
+    (f (samVarCommand c specBlocks specPair specVariants))
 
 end Gofasta.Driver
